@@ -216,7 +216,7 @@ func TestCorr(t *testing.T) {
 		ids := r.Perm(10)[:n]
 		shares := genShares(r, n)
 		sn, tot := snapshotOf(ids, shares)
-		if r.Intn(25) == 0 {
+		if r.Intn(10) == 0 { // an empty snapshot (total 0): nobody can decide anything
 			ids, shares = nil, nil
 			sn, tot = snapshotOf(nil, nil)
 		}
@@ -229,6 +229,7 @@ func TestCorr(t *testing.T) {
 		vals := []uint64{}
 		base := emit.U64(r)
 		backing := new(big.Int)
+		members := 0
 		for _, id := range perm[:m] {
 			v := emit.U64(r)
 			if r.Intn(2) == 0 {
@@ -240,11 +241,16 @@ func TestCorr(t *testing.T) {
 			for k, sid := range ids {
 				if sid == id {
 					backing.Add(backing, shares[k])
+					members++
 				}
 			}
 		}
 		ctx := sdk.Context{}.WithContext(context.Background()).WithLogger(log.NewNopLogger())
 		got, err := cc.VerifyGasEstimates(ctx, nopLog{}, ests)
+		if err == nil && members == 0 {
+			run.Violate("C04:decision-without-snapshot-member", "an estimate was elected although no submitter is in the snapshot",
+				map[string]any{"kind": "estimates", "snapshot": coqSnapshot(ids, shares, tot), "estimates": items})
+		}
 		var cls string
 		switch {
 		case err == nil:
@@ -333,14 +339,20 @@ func TestCorr(t *testing.T) {
 				ProtoMessage()
 			}))
 			backing := new(big.Int)
+			members := 0
 			for _, s := range subs {
 				if pvs[s.which].tag == wt && string(pvs[s.which].raw) == string(wa.Value) {
 					for k, sid := range ids {
 						if sid == s.id {
 							backing.Add(backing, shares[k])
+							members++
 						}
 					}
 				}
+			}
+			if members == 0 {
+				run.Violate("C04:decision-without-snapshot-member", "evidence winner although none of its backers is in the snapshot",
+					map[string]any{"kind": "evidence", "origin": origin, "snapshot": coqSnapshot(ids, shares, tot), "evidence(val,type,bytes-id)": items, "winner": cls})
 			}
 			if new(big.Int).Mul(backing, big.NewInt(3)).Cmp(new(big.Int).Mul(tot, big.NewInt(2))) < 0 {
 				run.Violate("C04:winner-without-identical-two-thirds",
@@ -374,8 +386,11 @@ func TestCorr(t *testing.T) {
 		ids := r.Perm(10)[:n]
 		shares := genShares(r, n)
 		if _, tot := snapshotOf(ids, shares); tot.Sign() == 0 {
-			// total 0 makes every group a winner (0>=0): excluded by the theorem's hypothesis 0 < total
+			// total 0 with zero-share members makes every group a winner (0>=0): excluded by the theorem's hypothesis 0 < total
 			shares[0] = big.NewInt(1)
+		}
+		if r.Intn(12) == 0 { // an empty snapshot (total 0): every submitter is an outsider
+			ids, shares = nil, nil
 		}
 		nvals := 1 + r.Intn(4)
 		var pvs []pv
@@ -584,7 +599,7 @@ func runEndBlock(t *testing.T, run *emit.Run, r *rand.Rand, stateStore storetype
 		for j := 0; j < nops; j++ {
 			if r.Intn(3) != 0 {
 				v := r.Intn(10)
-				if r.Intn(3) != 0 {
+				if r.Intn(3) != 0 && len(ids) > 0 {
 					v = ids[r.Intn(len(ids))]
 				}
 				val := base + uint64(r.Intn(5))
@@ -610,6 +625,10 @@ func runEndBlock(t *testing.T, run *emit.Run, r *rand.Rand, stateStore storetype
 					shares[0] = big.NewInt(1)
 					sn, tot = snapshotOf(ids, shares)
 				}
+				if r.Intn(4) == 0 { // ... to an empty snapshot
+					ids, shares = nil, nil
+					sn, tot = snapshotOf(nil, nil)
+				}
 			}
 			vs.snap = sn
 			if err := k.CheckAndProcessEstimatedMessages(ctx); err != nil {
@@ -625,11 +644,13 @@ func runEndBlock(t *testing.T, run *emit.Run, r *rand.Rand, stateStore storetype
 					run.Violate("C04:elected-estimate-changed", fmt.Sprintf("end-block changed an elected estimate %d -> %d", elected, now), map[string]any{"ops": ops})
 				} else {
 					backing := new(big.Int)
+					members := 0
 					lo, hi := ^uint64(0), uint64(0)
 					for _, e := range stored {
 						for kx, sid := range ids {
 							if sid == e.id {
 								backing.Add(backing, shares[kx])
+								members++
 							}
 						}
 						if e.v < lo {
@@ -641,6 +662,10 @@ func runEndBlock(t *testing.T, run *emit.Run, r *rand.Rand, stateStore storetype
 					}
 					if new(big.Int).Mul(backing, big.NewInt(3)).Cmp(new(big.Int).Mul(tot, big.NewInt(2))) < 0 {
 						run.Violate("C04:estimate-without-quorum", "end-block elected an estimate with less than 2/3 of snapshot shares behind the estimates",
+							map[string]any{"snapshot": coqSnapshot(ids, shares, tot), "ops": ops})
+					}
+					if members == 0 {
+						run.Violate("C04:decision-without-snapshot-member", "end-block elected an estimate although no submitter is in the snapshot",
 							map[string]any{"snapshot": coqSnapshot(ids, shares, tot), "ops": ops})
 					}
 					if len(stored) == 0 || now < lo || now > hi {
